@@ -31,6 +31,7 @@ func init() {
 			{Name: "reload-recreates-existing", File: "bfe_balance/bal_gslb/bal_gslb.go", Old: "		// record in the map of subExist\n		subExist[sub.Name] = true\n", New: "		// record in the map of subExist\n		if ok {\n			subExist[sub.Name] = weight > 0\n		}\n", Expect: "create-guard"},
 			{Name: "table-kept-not-deleted", File: "bfe_balance/bal_table.go", Old: "		} else {\n			delete(t.balTable, clusterName)\n		}", New: "		}", Expect: "kept-removed-from-old"},
 			{Name: "table-release-conditional", File: "bfe_balance/bal_table.go", Old: "	for _, remainder := range t.balTable {\n		remainder.Release()\n	}", New: "	for name, remainder := range t.balTable {\n		if _, ok := (*backendConfs.Config)[name]; !ok {\n			remainder.Release()\n		}\n	}", Expect: "release-pass"},
+			{Name: "standby-subcluster-skipped", File: "bfe_balance/bal_gslb/bal_gslb.go", Old: "	for _, subCluster := range bal.subClusters {\n		if backend, ok := clusterBackend[subCluster.Name]; ok {\n			subCluster.update(backend)", New: "	for _, subCluster := range bal.subClusters {\n		if subCluster.weight <= 0 {\n			continue\n		}\n		if backend, ok := clusterBackend[subCluster.Name]; ok {\n			subCluster.update(backend)", Expect: "update-all"},
 			{Name: "extra-release-caller", File: "bfe_balance/bal_gslb/bal_gslb.go", Old: "func (bal *BalanceGslb) BackendReload(clusterBackend cluster_table_conf.ClusterBackend) error {\n	bal.lock.Lock()\n\n	for _, subCluster := range bal.subClusters {\n		if backend, ok := clusterBackend[subCluster.Name]; ok {\n			subCluster.update(backend)\n		}", New: "func (bal *BalanceGslb) BackendReload(clusterBackend cluster_table_conf.ClusterBackend) error {\n	bal.lock.Lock()\n\n	for _, subCluster := range bal.subClusters {\n		if backend, ok := clusterBackend[subCluster.Name]; ok {\n			subCluster.update(backend)\n		} else {\n			subCluster.release()\n		}", Expect: "release-chain"},
 		},
 	})
@@ -333,6 +334,35 @@ func runC09(c *core.Ctx) {
 			c.Check("release-pass", "BalTableReload:sites", fn.Pos(), false, fmt.Sprintf("expected exactly one release site, found %d", nRel))
 		}
 		checkPublish(c, fn, "BalTableReload", "t.balTable", "t.lock")
+	}
+	// ---- backend lists of every sub-cluster follow the cluster table -----------------------------
+	// BackendReload / BackendInit hand the new backend list to every sub-cluster named in the
+	// cluster table: the update/init call is guarded only by the loop and the table lookup hit,
+	// otherwise removed backends of a skipped sub-cluster (e.g. a weight-0 standby used for cross
+	// retry) are neither released nor replaced.
+	for _, spec := range []struct{ fn, callee string }{{"BalanceGslb.BackendReload", gslb + ".SubCluster.update"}, {"BalanceGslb.BackendInit", gslb + ".SubCluster.init"}} {
+		fn := c.P.Func(gslb, spec.fn)
+		if fn == nil {
+			c.Missing(gslb + "." + spec.fn)
+			continue
+		}
+		c.Analysed(core.FuncKey(fn))
+		calls := core.Calls(fn, spec.callee)
+		if len(calls) != 1 {
+			c.Check("update-all", spec.fn, fn.Pos(), false, fmt.Sprintf("expected one call of %s, found %d", spec.callee, len(calls)))
+			continue
+		}
+		var extra []string
+		for _, g := range core.GuardsAt(calls[0].(ssa.Instruction).Block()) {
+			if strings.Contains(g.Str, "rangeindex") || strings.Contains(g.Str, "next(range(") {
+				continue
+			}
+			if g.Pol && strings.HasSuffix(g.Str, "#1") && strings.Contains(g.Str, "clusterBackend[") {
+				continue
+			}
+			extra = append(extra, g.Str)
+		}
+		c.Check("update-all", spec.fn, calls[0].Pos(), len(extra) == 0, spec.fn+" skips sub-clusters under "+strings.Join(extra, " && ")+": their removed backends are never released and new ones never installed")
 	}
 	// ---- release chain census ------------------------------------------------------------------------------------
 	chain := map[string][]string{
